@@ -121,6 +121,14 @@ def gen_case(rng, root, family, tier):
         desc["keyset"] = kind
     elif family == "leaf":
         r = scen.edit_payload_leaf(scn.layout, rng)
+        if ch.readme and not ch.readme.isascii() and rng.random() < 0.5:
+            # a text field that decides nothing else, respelt in the other Unicode normalisation form: other bytes
+            import unicodedata
+            for _try in range(6):
+                r2 = scen.edit_payload_leaf(scn.layout, rng, path=("readme",))
+                if r2 and unicodedata.normalize("NFC", str(r2[1]["new"])) == unicodedata.normalize("NFC", str(r2[1]["old"])):
+                    r = r2
+                    break
         scn.layout, d = r
         desc.update(edit=d)
     elif family == "parse_equal":
